@@ -47,6 +47,19 @@ CLAIMED['C12'] = dict(
          'counts as emitted once stdout was flushed successfully.',
     technique='TLC model checking of CleanWrite.tla (all fault choices and crash points) + TLC-generated fault schedules replayed into the real code, event traces validated by TLC')
 
+CLAIMED['C11'] = dict(
+    text='PelDir.tla states the allowed effect of every CLI mode on the directory tree (frame condition for read-only '
+         'modes, --delete removes at most one top-level file whose name contains the id, --delete-all exactly the '
+         'top-level regular files, --json only adds <file>.<eid>.json in the output directory) and contains the '
+         'implementation-shaped os.walk loops with their break statements; TLC checks the loops against the rules over '
+         'every tree of a 5-entry universe, every walk order and every command.  TLC (-simulate, Gen_PelDir) then emits '
+         'command sequences which, with seeded random sequences on larger random trees, are replayed through the real '
+         'CLI with recursive snapshots around every command; TLC judges every step with the same effect rules.',
+    design='DESIGN.md 4.9, 5 C11',
+    note='Trusted: TLC; snapshots (path, type, sha256).  Trees hold regular files and directories only.  An invocation '
+         'naming both a read-only mode and a delete option may take either effect.',
+    technique='TLC model checking of PelDir.tla (walk loops vs effect rules) + TLC-simulated command sequences replayed into the real CLI, snapshots validated by TLC')
+
 REASON_NOT_YET = 'check not built yet in this session (planned per DESIGN.md 5); not claimed until its TLC-judged check runs green on the unchanged tree'
 
 
